@@ -656,7 +656,7 @@ fn main() {
         VARIANT.store(0, std::sync::atomic::Ordering::Relaxed);
         let (bcfgs, ccfgs) = (byte_cfgs(), char_cfgs());
         let lens = tu_verif::enumerate::threshold_lengths(run.pick(8, 10));
-        run.bounds.insert("long_phase".into(), json!(format!("symbol counts {lens:?} x 6 repeated patterns x every tokenizer config x ignore_special_tokens")));
+        run.bounds.insert("long_phase".into(), json!(format!("symbol counts {lens:?} x 7 repeated patterns (the last one with the lowest and the highest code point) x every tokenizer config x ignore_special_tokens")));
         let unit_l = space.units() + space2.units() + space3.units();
         let mut subjects: Option<(Vec<ByteSubject>, Vec<CharSubject>)> = None;
         for (k, n) in lens.iter().enumerate() {
@@ -667,7 +667,7 @@ fn main() {
                 subjects = Some((bcfgs.iter().filter_map(|c| build_byte(&mut run, c)).collect(), ccfgs.iter().filter_map(|c| build_char(&mut run, c)).collect()));
             }
             let (bytes, chars) = subjects.as_ref().unwrap();
-            for pat in [&["a"][..], &["a", "ä", "😀"][..], &["<pad>", "a"][..], &["\r", "\n", "a", "\u{301}"][..], &["a", "Z", "~", " "][..], &["\u{915}", "\u{93f}", "a"][..]] {
+            for pat in [&["a"][..], &["a", "ä", "😀"][..], &["<pad>", "a"][..], &["\r", "\n", "a", "\u{301}"][..], &["a", "Z", "~", " "][..], &["\u{915}", "\u{93f}", "a"][..], &["\u{0}", "a", "\u{10ffff}", "\u{7f}"][..]] {
                 let s = tu_verif::enumerate::repeat_symbols(pat, *n);
                 let p = Prepared::new(&s);
                 for ign in [false, true] {
